@@ -7,13 +7,13 @@ import "github.com/kercylan98/vivid"
 // XVState is injected by the verification harness (go build -overlay); it reads the future's shared fields.
 // It must only be called while every goroutine touching the future is parked (vsched controller) or after
 // the future has completed and all users have returned.
-func XVState(f *Future[vivid.Message]) (closed bool, err error, message vivid.Message, forwarders int, doneClosed bool, hasTimer bool) {
+func XVState(f *Future[vivid.Message]) (closed bool, err error, message vivid.Message, forwarders int, doneClosed bool) {
 	select {
 	case <-f.done:
 		doneClosed = true
 	default:
 	}
-	return f.closed.Load(), f.err, f.message, len(f.forwarders), doneClosed, f.timer != nil
+	return f.closed.Load(), f.err, f.message, len(f.forwarders), doneClosed
 }
 
 // XVForwarders returns a copy of the pending forwarders.
